@@ -1,6 +1,7 @@
 package tab
 
 import (
+	"go/token"
 	"fmt"
 	"go/constant"
 	"go/types"
@@ -55,6 +56,19 @@ func ExtractTables(p *prog.Program) (map[string]*Table, error) {
 						continue // a local working map, not a table
 					}
 					t := get(name)
+					// `for _, p := range []tree.Path{...} { table[p] = f }`: one row per element of the literal
+					if ld, isLoad := x.Key.(*ssa.UnOp); isLoad && ld.Op == token.MUL {
+						if ia, isIA := ld.X.(*ssa.IndexAddr); isIA {
+							if keys, err := ev.strs(ia.X, nil, 0); err == nil && len(keys) > 0 {
+								for _, k := range keys {
+									row := Row{Pattern: k, Pos: p.InstrPos(x)}
+									describeValue(p, ev, x.Value, &row)
+									t.Rows = append(t.Rows, row)
+								}
+								continue
+							}
+						}
+					}
 					key, err := ev.str(x.Key, nil, 0)
 					if err != nil {
 						t.Errs = append(t.Errs, fmt.Sprintf("%s: key does not fold to a constant: %v", p.InstrPos(x), err))
